@@ -80,8 +80,14 @@ impl AuthenticatorData {
     }
 
     /// Set additional [`Flags`] to the authenticator data.
+    ///
+    /// [`Flags::AT`] and [`Flags::ED`] announce a section of the encoding, they are therefore
+    /// only ever set together with their section.
     pub fn set_flags(mut self, flags: Flags) -> Self {
         self.flags |= flags;
+        self.flags
+            .set(Flags::AT, self.attested_credential_data.is_some());
+        self.flags.set(Flags::ED, self.extensions.is_some());
         self
     }
 
